@@ -230,7 +230,7 @@ def cases(tier, cfg):
 
 def expected_routes(tier):
     r = [f"permute.r{k}.tensor" for k in (2, 3, 4, 5)] + [f"permute.r{k}.{s}" for k in (2, 3, 4) for s in ("add0", "slice")]
-    r += ["permute.r3.twice", "permute.r3.aaa", "permutation.r2.tensor", "permutation.noninv.r3.tensor", "transpose.reg", "transpose.scalar",
+    r += ["permute.r3.twice", "permute.r3.aaa", "permutation.r2.tensor", "transpose.reg", "transpose.scalar",
           "trans.ctor.scalar", "ctrans.ctor.loop", "transpose.expr.scalar", "trans.expr.scalar", "trans.assign.scalar", "transpose.batch",
           "legacy.choice.indistinguishable"]
     if tier == "thorough":
